@@ -3,10 +3,15 @@
 //!   {"obligation": "<label>", "input": ..., "observed": ..., "expected": ...}
 //! The witness search never decides pass/fail (only the verifier does); it attaches failing inputs to red obligations.
 mod c01;
+mod c03;
 mod c04;
 mod c05;
 mod c08;
+mod c10;
+mod c14;
 mod c15;
+mod c19;
+mod eng;
 
 pub fn report(obligation: &str, input: String, observed: String, expected: String) {
     println!(
@@ -21,10 +26,14 @@ fn main() {
     let seed: u64 = args.get(2).and_then(|s| s.parse().ok()).unwrap_or(0);
     let n = match pid {
         "C01" => c01::run(seed),
+        "C03" => c03::run(seed, std::env::args().nth(3).as_deref() == Some("thorough")),
         "C04" => c04::run(seed, std::env::args().nth(3).as_deref() == Some("thorough")),
         "C05" => c05::run(seed, std::env::args().nth(3).as_deref() == Some("thorough")),
         "C08" => c08::run(seed),
+        "C10" => c10::run(seed, std::env::args().nth(3).as_deref() == Some("thorough")),
+        "C14" => c14::run(seed, std::env::args().nth(3).as_deref() == Some("thorough")),
         "C15" => c15::run(seed),
+        "C19" => c19::run(seed, std::env::args().nth(3).as_deref() == Some("thorough")),
         _ => {
             eprintln!("no witness search for {pid}");
             0
